@@ -192,6 +192,11 @@ pub struct Iso<'a> {
     /// ignore `i32.const K; drop` pairs with K in the edit-marker range in the
     /// output (instructions inserted by edits::insert_const_drop)
     pub strip_markers: bool,
+    /// input functions whose image was chosen among several content-identical
+    /// candidates (unreferenced duplicates): offset / index judgements that
+    /// depend on the choice must be skipped for them
+    pub ambiguous_funcs: std::collections::HashSet<u32>,
+    leftover_funcs: Vec<u32>,
 }
 
 type R = Result<(), Mismatch>;
@@ -216,6 +221,8 @@ impl<'a> Iso<'a> {
             funcs_compared: 0,
             ops_compared: 0,
             strip_markers: false,
+            ambiguous_funcs: Default::default(),
+            leftover_funcs: vec![],
         }
     }
 
@@ -532,18 +539,18 @@ impl<'a> Iso<'a> {
         // code it does not recognise (e.g. after return_call) or to drop it
         let (mut cb, _) = canonicalise(&bb.ops);
         if self.strip_markers {
-            let mut kept = Vec::with_capacity(cb.len());
-            let mut i = 0;
-            while i < cb.len() {
-                let is_marker = i + 1 < cb.len()
-                    && cb[i].name == "I32Const"
-                    && matches!(cb[i].imms.first(), Some(Imm::I32(k)) if (0x5eed00..0x5eed00 + 256).contains(k))
-                    && cb[i + 1].name == "Drop";
-                if is_marker {
-                    i += 2;
+            // stack-based so that nested insertions (a pair inserted between
+            // the two halves of another pair) disappear as well
+            let mut kept: Vec<Op> = Vec::with_capacity(cb.len());
+            for o in cb.iter() {
+                let top_is_marker = kept
+                    .last()
+                    .map(|t| t.name == "I32Const" && matches!(t.imms.first(), Some(Imm::I32(k)) if (0x5eed00..0x5eed00 + 256).contains(k)))
+                    .unwrap_or(false);
+                if o.name == "Drop" && top_is_marker {
+                    kept.pop();
                 } else {
-                    kept.push(cb[i].clone());
-                    i += 1;
+                    kept.push(o.clone());
                 }
             }
             cb = kept;
@@ -899,6 +906,13 @@ impl<'a> Iso<'a> {
                 }
                 match found {
                     Some(y) => {
+                        let others: Vec<u32> = (0..b.n_funcs())
+                            .filter(|z| *z != y && !self.funcs.rev.contains_key(z))
+                            .collect();
+                        if others.into_iter().any(|z| self.trial_func(x, z).is_ok()) {
+                            self.ambiguous_funcs.insert(x);
+                        }
+                        self.leftover_funcs.push(x);
                         self.bind_func(x, y, Area::Module, "unreferenced function")?;
                         self.drain()?;
                     }
@@ -909,6 +923,12 @@ impl<'a> Iso<'a> {
                     }
                 }
             }
+        }
+        if !self.ambiguous_funcs.is_empty() {
+            // conservative closure: once one unreferenced function had a
+            // content-identical twin, the pairing of all of them is arbitrary
+            let all: Vec<u32> = self.leftover_funcs.clone();
+            self.ambiguous_funcs.extend(all);
         }
         // type sections as sets of signatures
         let sa: std::collections::BTreeSet<String> = a.types.iter().map(|t| format!("{:?}", t)).collect();
@@ -1026,6 +1046,13 @@ impl<'a> Iso<'a> {
                 }
                 match found {
                     Some(x) => {
+                        let others: Vec<u32> = (0..a.n_funcs())
+                            .filter(|z| *z != x && !self.funcs.fwd.contains_key(z))
+                            .collect();
+                        if others.into_iter().any(|z| self.trial_func(z, y).is_ok()) {
+                            self.ambiguous_funcs.insert(x);
+                        }
+                        self.leftover_funcs.push(x);
                         self.bind_func(x, y, Area::Module, "gc leftover function")?;
                         self.drain()?;
                     }
@@ -1157,6 +1184,10 @@ impl<'a> Iso<'a> {
                 ));
             }
         }
+        if !self.ambiguous_funcs.is_empty() {
+            let all: Vec<u32> = self.leftover_funcs.clone();
+            self.ambiguous_funcs.extend(all);
+        }
         // output types must be signatures of the input
         let sa: std::collections::BTreeSet<String> = a.types.iter().map(|t| format!("{:?}", t)).collect();
         for t in &b.types {
@@ -1214,7 +1245,10 @@ impl<'a> Iso<'a> {
     /// True instruction-offset map input → output over all paired functions.
     pub fn offset_map(&self) -> BTreeMap<usize, usize> {
         let mut m = BTreeMap::new();
-        for v in self.op_pairs.values() {
+        for (k, v) in self.op_pairs.iter() {
+            if self.ambiguous_funcs.contains(&k.0) {
+                continue;
+            }
             for (i, o) in v {
                 m.insert(*i, *o);
             }
